@@ -361,10 +361,24 @@ func (p *Prog) wholeIndexCompare() []Ob {
 					if !ok || !strings.HasPrefix(calleeName(c.Common()), "slices.Equal") {
 						continue
 					}
-					for _, a := range c.Call.Args {
+					isFunc := strings.HasPrefix(calleeName(c.Common()), "slices.EqualFunc")
+					for ai, a := range c.Call.Args {
+						if isFunc && ai >= 2 {
+							continue
+						}
 						rel, whole := derived(a)
 						if !rel {
 							continue
+						}
+						if isFunc && whole {
+							// the comparison function has to look at whole items
+							if miss := p.fieldsNotCompared(c.Call.Args[2]); miss != "" {
+								nCmp++
+								ob := Ob{Rule: "R11", Inst: "L7:" + funcLabel(cl.fn) + ":whole-index-compare", Props: []string{"C02", "C05", "C07", "C11", "C10"}, Pos: p.at(c), Func: funcLabel(cl.fn), Nontrivial: true}
+								ob.Status, ob.Msg = Violated, "the stored index is compared with the derived one item by item through a function that leaves out "+miss+": a stored index that is wrong there is accepted and kept"
+								obs = append(obs, ob)
+								continue
+							}
 						}
 						nCmp++
 						ob := Ob{Rule: "R11", Inst: "L7:" + funcLabel(cl.fn) + ":whole-index-compare", Props: []string{"C02", "C05", "C07", "C11"}, Pos: p.at(c), Func: funcLabel(cl.fn), Nontrivial: true}
@@ -2676,6 +2690,35 @@ func (p *Prog) headerFlagsExact() []Ob {
 				ob.Status, ob.Msg = Discharged, "the recorded "+f+" flag is compared with the option for (in)equality: a mismatch in either direction is rejected"
 			} else {
 				ob.Status, ob.Msg = Violated, "the recorded "+f+" flag is only tested where the option is set: an index that has the column although the option is off is accepted and then read with the wrong item stride"
+			}
+			obs = append(obs, ob)
+		}
+		// every bit of the flags byte is spoken for: the masks the parser tests add up to the whole
+		// byte, so a stray bit (a damaged header) is refused and not carried along
+		{
+			var cover int64
+			nMasks := 0
+			for _, b := range fn.Blocks {
+				for _, ins := range b.Instrs {
+					bo, ok := ins.(*ssa.BinOp)
+					if !ok || bo.Op != token.AND {
+						continue
+					}
+					for _, side := range []ssa.Value{bo.X, bo.Y} {
+						if k, isK := constInt(side); isK {
+							if bt, ok := side.Type().Underlying().(*types.Basic); ok && (bt.Kind() == types.Uint8 || bt.Kind() == types.UntypedInt) {
+								cover |= k
+								nMasks++
+							}
+						}
+					}
+				}
+			}
+			ob := Ob{Rule: "R9", Inst: "h2:header-flags-cover-the-byte", Props: []string{"C13", "C07", "C11"}, Pos: p.posStr(fn.Pos()), Func: funcLabel(fn), Nontrivial: true}
+			if nMasks > 0 && cover&0xff != 0xff {
+				ob.Status, ob.Msg = Violated, fmt.Sprintf("the masks the header parser tests cover only %#08b of the flags byte: a header with another bit set is accepted, Check passes on it and Recover keeps it, although it is not what any writer produces", cover&0xff)
+			} else {
+				ob.Status, ob.Msg = Discharged, fmt.Sprintf("%d mask test(s) covering every bit of the flags byte", nMasks)
 			}
 			obs = append(obs, ob)
 		}
@@ -6258,4 +6301,139 @@ func (p *Prog) fieldsReadOnQueryPaths() map[*types.Var]bool {
 	}
 	p.fieldsReadMemo = out
 	return out
+}
+
+// fieldsNotCompared: f is the comparison function handed to slices.EqualFunc over index items; returns
+// the names of the item's fields it does not read from both parameters ("" when it compares whole
+// items or every field, or when f cannot be resolved to a function of the module).
+func (p *Prog) fieldsNotCompared(f ssa.Value) string {
+	var fn *ssa.Function
+	switch x := f.(type) {
+	case *ssa.Function:
+		fn = x
+	case *ssa.MakeClosure:
+		fn, _ = x.Fn.(*ssa.Function)
+	}
+	if fn == nil || fn.Blocks == nil || len(fn.Params) != 2 {
+		return ""
+	}
+	st, ok := fn.Params[0].Type().Underlying().(*types.Struct)
+	if !ok {
+		return ""
+	}
+	read := [2]map[int]bool{{}, {}}
+	for _, b := range fn.Blocks {
+		for _, ins := range b.Instrs {
+			switch x := ins.(type) {
+			case *ssa.BinOp:
+				if (x.Op == token.EQL || x.Op == token.NEQ) && ((x.X == ssa.Value(fn.Params[0]) && x.Y == ssa.Value(fn.Params[1])) || (x.X == ssa.Value(fn.Params[1]) && x.Y == ssa.Value(fn.Params[0]))) {
+					return ""
+				}
+			case *ssa.Field:
+				for i, pr := range fn.Params {
+					if x.X == ssa.Value(pr) {
+						read[i][x.Field] = true
+					}
+				}
+			case *ssa.FieldAddr:
+				// a spilled value parameter
+				if al, ok := x.X.(*ssa.Alloc); ok {
+					for _, s2 := range allocStores(al) {
+						for i, pr := range fn.Params {
+							if s2.Val == ssa.Value(pr) {
+								read[i][x.Field] = true
+							}
+						}
+					}
+				}
+			}
+		}
+	}
+	var miss []string
+	for i := 0; i < st.NumFields(); i++ {
+		if !read[0][i] || !read[1][i] {
+			miss = append(miss, st.Field(i).Name())
+		}
+	}
+	return strings.Join(miss, ", ")
+}
+
+// ---------------------------------------------------------------------------
+// R3g NO-SHARED-SCRATCH (C20, C08): no package-level byte slice of the module is written into (handed
+// to a Read, used as the destination of copy, stored through an index): every call of the library
+// may run next to another one - two backups, a backup next to a consumer - and a scratch buffer all
+// of them share mixes their bytes.
+func (p *Prog) noSharedScratch() []Ob {
+	ob := Ob{Rule: "R3", Inst: "g:no-shared-scratch", Props: []string{"C20", "C08"}, Pos: "-", Nontrivial: true}
+	n := 0
+	var bad []string
+	for _, fn := range p.Funcs {
+		if !srcFunc(fn) || fn.Name() == "init" {
+			continue
+		}
+		for _, b := range fn.Blocks {
+			for _, ins := range b.Instrs {
+				u, ok := ins.(*ssa.UnOp)
+				if !ok || u.Op != token.MUL {
+					continue
+				}
+				g, ok := u.X.(*ssa.Global)
+				if !ok || g.Pkg == nil || !inModulePath(g.Pkg.Pkg.Path()) {
+					continue
+				}
+				sl, ok := derefPtr(g.Type()).Underlying().(*types.Slice)
+				if !ok {
+					continue
+				}
+				if bt, ok := sl.Elem().Underlying().(*types.Basic); !ok || bt.Kind() != types.Uint8 {
+					continue
+				}
+				n++
+				if u.Referrers() == nil {
+					continue
+				}
+				var uses func(v ssa.Value, d int)
+				uses = func(v ssa.Value, d int) {
+					if d > 3 || v.Referrers() == nil {
+						return
+					}
+					for _, ref := range *v.Referrers() {
+						switch x := ref.(type) {
+						case *ssa.Slice:
+							uses(x, d+1)
+						case *ssa.IndexAddr:
+							for _, r2 := range *x.Referrers() {
+								if st, ok := r2.(*ssa.Store); ok && st.Addr == ssa.Value(x) {
+									bad = append(bad, fmt.Sprintf("%s: %s stores into the package-level buffer %s", p.at(st), funcLabel(fn), g.Name()))
+								}
+							}
+						case *ssa.Call:
+							cc := x.Common()
+							switch {
+							case isBuiltinCall(cc, "copy") && len(cc.Args) > 0 && cc.Args[0] == v:
+								bad = append(bad, fmt.Sprintf("%s: %s copies into the package-level buffer %s", p.at(x), funcLabel(fn), g.Name()))
+							case cc.IsInvoke() && (cc.Method.Name() == "Read" || cc.Method.Name() == "ReadAt") && len(cc.Args) > 0 && cc.Args[0] == v:
+								bad = append(bad, fmt.Sprintf("%s: %s reads into the package-level buffer %s", p.at(x), funcLabel(fn), g.Name()))
+							case !cc.IsInvoke() && (strings.HasSuffix(calleeName(cc), ").Read") || strings.HasSuffix(calleeName(cc), ").ReadAt") || calleeName(cc) == "io.ReadFull" || calleeName(cc) == "io.CopyBuffer"):
+								for _, a := range cc.Args {
+									if a == v {
+										bad = append(bad, fmt.Sprintf("%s: %s reads into the package-level buffer %s", p.at(x), funcLabel(fn), g.Name()))
+									}
+								}
+							}
+						}
+					}
+				}
+				uses(u, 0)
+			}
+		}
+	}
+	if len(bad) > 0 {
+		sort.Strings(bad)
+		ob.Pos = strings.SplitN(bad[0], ": ", 2)[0]
+		ob.Status, ob.Msg, ob.Path = Violated, "a package-level byte slice is used as a scratch buffer: two calls running at the same time (two backups, or any two handles in one process) overwrite each other's bytes, and a copy that reports success holds the other file's data", uniqStrings(bad)
+	} else {
+		ob.Status, ob.Msg = Discharged, fmt.Sprintf("%d use(s) of package-level byte slices, all read-only", n)
+	}
+	return []Ob{ob}
 }
